@@ -169,6 +169,7 @@ def range_rules(facts, rep):
     seen = {}
     for p in oks:
         seen, rej, other = path_bounds(p)
+        seen = {k_: (None if lo_ == 0 else lo_, hi_) for k_, (lo_, hi_) in seen.items()}     # `0..=23` on an unsigned field is `<= 23`
         o = outcome(p)
         flds = dict(o[1][3]) if o[1] and o[1][0] == "agg" else {}
         good = good and seen == DOC and not rej and not other and all(flds.get(k) is not None and flds[k][0] == "arg" and flds[k][2] == k for k in DOC)
@@ -180,6 +181,10 @@ def range_rules(facts, rep):
     errs = [p for p in ps if outcome(p)[0] == "Err"]
     rejecting = set()
     good = len(errs) >= 6 and len(errs) + len(oks) == len(ps)
+    # (a path on which an unsigned field "fails" `>= 0` does not exist)
+    infeasible = [p for p in errs if any(lo == 0 and hi is None for _, lo, hi in path_bounds(p)[1])]
+    errs = [p for p in errs if p not in infeasible]
+    good = len(errs) >= 6 and len(errs) + len(oks) + len(infeasible) == len(ps)
     for p in errs:
         acc, rej, other = path_bounds(p)
         real = [(v, lo, hi) for v, lo, hi in rej if v in DOC and lo in (None, DOC[v][0]) and hi in (None, DOC[v][1])]
@@ -200,13 +205,19 @@ def range_rules(facts, rep):
             o = outcome(p)
             flds = dict(o[1][3])
             ysrc = show(_strip(flds["year"]))
-            good = good and acc == {ysrc: (1980, 2107)} and not rej and not other and ysrc == "OffsetDateTime::year(dt)"
+            # (the narrowing may be a checked conversion whose failure is one more way to be out of range)
+            conv = re.match(r"^ok\(TryFrom::try_from\((.+)\)\)$", ysrc)
+            other = [(a_, v_) for a_, v_ in other if not (conv and a_ == "discr(TryFrom::try_from(%s))" % conv.group(1) and v_ == 0)]
+            good = good and acc == {ysrc: (1980, 2107)} and not rej and not other and (ysrc == "OffsetDateTime::year(dt)" or (conv and conv.group(1) == "OffsetDateTime::year(dt)"))
             for k, acc_ in (("month", "month"), ("day", "day"), ("hour", "hour"), ("minute", "minute"), ("second", "second")):
                 good = good and ("OffsetDateTime::%s(dt)" % acc_) in show(flds[k])
         for p in pst:
             if outcome(p)[0] != "Ok":
                 acc, rej, other = path_bounds(p)
-                good = good and outcome(p)[0] == "Err" and bool(rej) and not other and all(v == "OffsetDateTime::year(dt)" and lo in (None, 1980) and hi in (None, 2107) for v, lo, hi in rej)
+                convfail = [(a_, v_) for a_, v_ in other if a_ == "discr(TryFrom::try_from(OffsetDateTime::year(dt)))" and v_ == 1]
+                other = [x_ for x_ in other if x_ not in convfail and not (x_[0] == "discr(TryFrom::try_from(OffsetDateTime::year(dt)))" and x_[1] == 0)]
+                good = good and outcome(p)[0] == "Err" and (bool(rej) or bool(convfail)) and not other and \
+                    all(v in ("OffsetDateTime::year(dt)", "ok(TryFrom::try_from(OffsetDateTime::year(dt)))") and lo in (None, 1980) and hi in (None, 2107) for v, lo, hi in rej)
         ok &= rep.check(good, rule, "try_from-year-guard", where(t, t.span), "Ok iff 1980 <= dt.year() <= 2107, tested on the very value stored; other fields from the same dt",
                         "TryFrom<OffsetDateTime> guards %s but stores year = %s -- the guard must be on the stored calendar year (offset-local), or impossible years get in" % (
                             [a for a, v in okp[0]["decisions"]] if okp else "?", show(dict(outcome(okp[0])[1][3])["year"]) if okp else "?"))
